@@ -35,6 +35,29 @@ Theorem run_refines : forall t es s g s',
 Proof. exact run_refines_lemma. Qed.
 Print Assumptions run_refines.
 
+(* the other direction: where the specification step is defined the runtime does not panic
+   (`live`: every variable saved in a frame exists in the store — Call created it, and it stays) *)
+Theorem call_defined : forall t s g p ret args g',
+  wf_table t -> Rel s g -> call_spec t g p ret args = Some g' ->
+  exists s', call_impl t s p ret args = Some s'.
+Proof. exact call_defined_lemma. Qed.
+Print Assumptions call_defined.
+
+Theorem return_defined : forall s g g',
+  Rel s g -> live s g -> return_spec g = Some g' -> exists s', return_impl s = Some s'.
+Proof. exact return_defined_lemma. Qed.
+Print Assumptions return_defined.
+
+Theorem live_preserved_by_call : forall t s g p r a s' g',
+  live s g -> call_impl t s p r a = Some s' -> call_spec t g p r a = Some g' -> live s' g'.
+Proof. exact call_live. Qed.
+Print Assumptions live_preserved_by_call.
+
+Theorem live_preserved_by_return : forall s g s' g',
+  live s g -> return_impl s = Some s' -> return_spec g = Some g' -> live s' g'.
+Proof. exact return_live. Qed.
+Print Assumptions live_preserved_by_return.
+
 (* every store with a .pc and a well-formed .stack is related to its abstraction *)
 Theorem store_abstraction : forall s, wf_store s -> Rel s (abs s).
 Proof. exact rel_abs. Qed.
